@@ -1,5 +1,5 @@
 (* C04 - minimal cost translations; cost fields add up. *)
-From YV Require Import Prelude EarleySpec Recognizer Translate Dag.
+From YV Require Import Prelude EarleySpec Recognizer Translate Dag Prune.
 
 Theorem C04_fields_decider : forall t t', uncum t = Some t' -> cum t' = t /\ tcost t' = field t.
 Proof. exact uncum_spec. Qed.
@@ -15,3 +15,45 @@ Theorem C04_denotation_exact : forall st root L,
   denote st root = Some L -> forall t, In t L <-> denotes st root t.
 Proof. exact denote_spec. Qed.
 Print Assumptions C04_denotation_exact.
+
+(* minimal cost pruning (prune_to_minimal): the cost handed back is the least cost of a denoted tree *)
+Theorem C04_least_cost : forall st (one : bool) F root m, mc st F root = Some m ->
+  (exists t, denotes st root t /\ tcost t = m) /\ (forall t, denotes st root t -> (m <= tcost t)%Z).
+Proof. exact mc_is_minimum. Qed.
+Print Assumptions C04_least_cost.
+
+(* all parses: keeping, in every list of alternatives, those of least cost leaves exactly the denoted trees of least cost *)
+Theorem C04_pruning_exact : forall st F root m, mc st F root = Some m ->
+  forall t, denotes (pst st false F) root t <-> (denotes st root t /\ tcost t = m).
+Proof. intros st F root m. exact (prune_exact st false F root m eq_refl). Qed.
+Print Assumptions C04_pruning_exact.
+
+(* one parse: keeping the first alternative of least cost leaves exactly one tree, of least cost *)
+Theorem C04_pruning_one_parse : forall st F root m, mc st F root = Some m ->
+  exists t, (forall t', denotes (pst st true F) root t' <-> t' = t) /\ denotes st root t /\ tcost t = m.
+Proof. intros st F root m. exact (prune_one st true F root m eq_refl). Qed.
+Print Assumptions C04_pruning_one_parse.
+
+(* the cumulative cost field of a node is the cost of every tree the pruned node denotes, and it is the node's own cost
+   plus the fields of its children *)
+Theorem C04_field_is_cost : forall st (one : bool) F id m t, mc st F id = Some m -> denotes (pst st one F) id t -> tcost t = m.
+Proof. exact field_is_cost. Qed.
+Print Assumptions C04_field_is_cost.
+
+Theorem C04_field_adds_up : forall st id nm c kids f, nth_error st id = Some (DAnode nm c kids) ->
+  forall m, mc st (S f) id = Some m -> exists ms, Forall2 (fun k mk => mc st f k = Some mk) kids ms /\ m = (c + zsum ms)%Z.
+Proof. exact field_adds_up. Qed.
+Print Assumptions C04_field_adds_up.
+
+(* the executable form the correspondence check runs on the implementation's unpruned DAG *)
+Theorem C04_pruned_denotation_all : forall st root m L, prune_denote st false root = Some (m, L) ->
+  (forall t, In t L <-> (denotes st root t /\ tcost t = m)) /\
+  (forall t, denotes st root t -> (m <= tcost t)%Z) /\ (exists t, In t L).
+Proof. exact prune_denote_all. Qed.
+Print Assumptions C04_pruned_denotation_all.
+
+Theorem C04_pruned_denotation_one : forall st root m L, prune_denote st true root = Some (m, L) ->
+  exists t, (forall t', In t' L <-> t' = t) /\ denotes st root t /\ tcost t = m /\
+            (forall t', denotes st root t' -> (m <= tcost t')%Z).
+Proof. exact prune_denote_one. Qed.
+Print Assumptions C04_pruned_denotation_one.
